@@ -70,7 +70,7 @@ def _example_cases(max_nodes):
 def cases(rng: random.Random, tier: str):
     nmax = 5 if tier == "quick" else 6
     out = [dict(c) for c in _corpus()] + _example_cases(nmax + 1 if tier == "quick" else 7)
-    n = 700 if tier == "quick" else 5000
+    n = 3500 if tier == "quick" else 24000
     for k in range(n):
         g = R.gen_graph(rng, 2, nmax if k % 4 else 4)
         nodes = G.all_nodes(g)
